@@ -364,6 +364,7 @@ def build_lha(ctx, sanitize=True, name="lha", extra_flags=(), wrap=()):
     `wrap`: libc symbols to interpose with --wrap (the shim source must be given in extra_flags)."""
     bdir = os.path.join(ctx.tmp, name + "-build")
     os.makedirs(bdir, exist_ok=True)
+    os.chmod(ctx.tmp, 0o755)          # the tool is also run as an unprivileged user
     san = SAN_FLAGS if sanitize else ["-O1", "-g"]
     inc = ["-I", REPO, "-I", os.path.join(REPO, "lib"), "-I", os.path.join(REPO, "lib", "public"),
            "-I", os.path.join(REPO, "src"), "-DHAVE_CONFIG_H", "-DTEST_BUILD", "-w"]
